@@ -22,8 +22,8 @@ func init() {
 }
 
 var c07Table = map[string]string{
-	"rt/middleware/header.expectTokenOrQuoted: make((len(s[1:])-1))[φ]":  "p has len(s)-1 bytes; j starts as copy(p, s[:i]) = i (the backslash position) and is incremented at most once per later input byte i' in (i, len(s)), so at a write j <= i'-1 < len(s)-1",
-	"rt/middleware/header.expectTokenOrQuoted: make((len(s[1:])-1))[:φ]": "same counting argument: j <= len(s)-1 = len(p) when the closing quote is found",
+	"make((len(_[1:])-1))[_]":  "p has len(s)-1 bytes; j starts as copy(p, s[:i]) = i (the backslash position) and is incremented at most once per later input byte i' in (i, len(s)), so at a write j <= i'-1 < len(s)-1",
+	"make((len(_[1:])-1))[:_]": "same counting argument: j <= len(s)-1 = len(p) when the closing quote is found",
 }
 
 // factLessConst: the edge establishes v < K for some constant K (v recognised by m).
